@@ -49,7 +49,11 @@ RULE = ("all interleavings of 2 logical threads (1-3 operations each; thorough a
         "interleaved with signing and verifying, the configuration object of each new entity coming about by fresh "
         "load / copy.copy / copy.deepcopy of an existing entity's Config + re-pointing / mutation of a used Config / "
         "one dictionary loaded twice / a configuration file, as SPConfig, IdPConfig or plain Config (stream "
-        "'provenance': every combination); stream 'matrix': library verdict for (signature by X, certificate Y "
+        "'provenance': every combination; 'naming': by path and by module name with sys.path set mixed in every order, "
+        "re-creation after another same-named file was loaded); stream 'receive': a real Server receiver whose "
+        "metadata lists 0-3 signing certificates per issuer (current one first/middle/last/absent, retired RSA / EC / "
+        "Ed25519 ones around it) judges every produced URL with parse_authn_request / parse_logout_request: accepted "
+        "iff the caller's certificate is published; stream 'matrix': library verdict for (signature by X, certificate Y "
         "of kind RSA / EC P-256 / Ed25519, verifier backend Z in {X, Y, third}) must be [X = Y]; non-trivial = some thread's "
         "get_signer and its sign/verify are separated by another thread's action (model class interleaved|race), "
         "or an OS thread serves several logical threads, or the preemption point was reached")
@@ -89,7 +93,7 @@ GOOD_ALGS = [SHA1, SHA224, SHA256, SHA384, SHA512]
 BAD_ALGS = [MD5, BOGUS]
 
 # entity name = key name of harness/keys; kind of pysaml2 entity acting with that key
-HOWS = ["fresh", "copy", "deepcopy", "mutate", "samedict", "file", "file_alias"]
+HOWS = ["fresh", "copy", "deepcopy", "mutate", "samedict", "file", "file_alias", "module"]
 ENTITIES = {"sp": "sp", "sp2": "sp", "idp_sign": "idp", "member2": "idp", "idp2": "idp"}
 ACTORS = ["sp", "idp_sign", "member2", "sp2", "idp2"]
 BYSTANDERS = ["attacker", "idp_sign2"]
@@ -203,6 +207,68 @@ def destination(n):
     return "https://rp.c20.example/sso?tenant=%d" % n if n % 4 == 1 else "https://rp.c20.example/sso"
 
 
+RECV_SSO = "https://rp.c20.example/sso"
+RECV_SLO = "https://rp.c20.example/slo"
+
+
+def issuer_id(name):
+    return "urn:c20:issuer:%s" % name
+
+
+def recv_kind(n):
+    return "logout" if n % 2 == 0 else "authn"
+
+
+def recv_destination(n):
+    return RECV_SLO if recv_kind(n) == "logout" else RECV_SSO
+
+
+def recv_msg_text(n, own, instant):
+    """a real AuthnRequest / LogoutRequest of the issuer the caller claims to be (its current entity)"""
+    from saml2 import saml, samlp
+
+    issuer = saml.Issuer(text=issuer_id(own), format=saml.NAMEID_FORMAT_ENTITY)
+    if recv_kind(n) == "logout":
+        msg = samlp.LogoutRequest(id="id-c20-%d" % n, version="2.0", issue_instant=instant, destination=RECV_SLO,
+                                  issuer=issuer, name_id=saml.NameID(text="subject-%d" % n,
+                                                                     format=saml.NAMEID_FORMAT_TRANSIENT))
+    else:
+        msg = samlp.AuthnRequest(id="id-c20-%d" % n, version="2.0", issue_instant=instant, destination=RECV_SSO,
+                                 issuer=issuer, protocol_binding=S.BINDING_POST,
+                                 assertion_consumer_service_url="https://%s.c20.example/acs" % own.replace("_", "-"))
+    return msg.to_string().decode("utf-8")
+
+
+def make_receiver(published):
+    """a real Server whose metadata publishes, per issuer, the listed signing certificates IN THAT ORDER"""
+    ents = []
+    for name, certs in sorted(published.items()):
+        host = name.replace("_", "-")
+        ents.append({"entity_id": issuer_id(name),
+                     "spsso": {"keys": [("signing", c) for c in certs], "authn_requests_signed": True,
+                               "acs": [(S.BINDING_POST, "https://%s.c20.example/acs" % host, 0)],
+                               "slo": [(S.BINDING_REDIRECT, "https://%s.c20.example/slo" % host)]}})
+    conf = S.idp_config(sp_entities=ents, entityid="https://rp.c20.example/idp",
+                        idp={"want_authn_requests_signed": True,
+                             "endpoints": {"single_sign_on_service": [(RECV_SSO, S.BINDING_REDIRECT)],
+                                           "single_logout_service": [(RECV_SLO, S.BINDING_REDIRECT)]}})
+    return S.make_idp(conf)
+
+
+def receive(receiver, url):
+    """verdict of the library's receiving path on a produced redirect URL"""
+    q = urllib.parse.parse_qs(url.split("?", 1)[1], keep_blank_values=True)
+    kw = {"relay_state": q["RelayState"][0] if "RelayState" in q else None,
+          "sigalg": q.get("SigAlg", [None])[0], "signature": q.get("Signature", [None])[0]}
+    text = _inflate_b64(q["SAMLRequest"][0])
+    parse = receiver.parse_logout_request if "LogoutRequest" in text[:200] else receiver.parse_authn_request
+    try:  # only the real call: a refusal is IncorrectlySigned (or whatever the code raises for this message)
+        req = parse(q["SAMLRequest"][0], S.BINDING_REDIRECT, **kw)
+    except Exception:
+        return False
+    return bool(req is not None and req.message is not None)
+
+
 def _deflate_b64(text):
     return base64.b64encode(zlib.compress(text.encode("utf-8"))[2:-4]).decode("ascii")
 
@@ -239,7 +305,7 @@ def fixture(op):
     return dict(_fix[k])
 
 
-def check_url(url, typ, n, alg, universe):
+def check_url(url, typ, n, alg, universe, text_want=None, dest_want=None):
     """Receiver's view of a produced redirect URL -> (verifiers, intact)."""
     from cryptography.exceptions import InvalidSignature
     from cryptography.hazmat.primitives.asymmetric import padding, rsa
@@ -258,9 +324,9 @@ def check_url(url, typ, n, alg, universe):
         text = _inflate_b64(urllib.parse.unquote_plus(raw[typ]))
     except (ValueError, zlib.error):
         return [], False
-    intact = (sigalg == alg and text == msg_text(n)
+    intact = (sigalg == alg and text == (text_want if text_want is not None else msg_text(n))
               and urllib.parse.unquote_plus(raw.get("RelayState", "")) == relay_state(n)
-              and url.startswith(destination(n)))
+              and url.startswith(dest_want if dest_want is not None else destination(n)))
     h = _hashes().get(sigalg)
     verifiers = []
     cache = {}
@@ -415,8 +481,12 @@ def _make_entity(key_file, cert_file, label, op, ent, env):
       mutate    the configuration object of the current entity itself is re-pointed, a new entity built from it
       samedict  one dictionary object per path, loaded into two configuration objects, one entity from each
       file      configuration module written to a file of its own, entity built with config_file=<path>
-      file_alias  like file, but every such file is called sp_conf.py (in a directory of its own): the class of
-                  defect d4739075 (files of one base name aliased); finding_key keeps naming it"""
+      file_alias  like file, but every such file is called sp_conf.py (one directory per key-file path): the class
+                  of defect d4739075 (files of one base name aliased); finding_key keeps naming it
+      module      configuration named by MODULE NAME (config_file="c20conf_p<path>"), its directory put on sys.path
+      module_alias  the same with the module name sp_conf; Python keeps ONE module per bare name, so the generator
+                  uses a single key-file path for all module_alias set-ups of a case (any number of re-creations,
+                  in any order with by-path loads of other sp_conf.py files)"""
     import copy
 
     how = op.get("how") or "fresh"
@@ -438,47 +508,63 @@ def _make_entity(key_file, cert_file, label, op, ent, env):
         d = env.setdefault("dicts", {}).setdefault((key_file, cls), _minimal_dict(key_file, cert_file, label, cls))
         env.setdefault("keep", []).append(_entity_from(d, cls))
         new = _entity_from(d, cls)
-    elif how in ("file", "file_alias"):
+    elif how in ("file", "file_alias", "module", "module_alias"):
+        import sys
+
         from saml2.client import Saml2Client
         from saml2.server import Server
 
         if cls == "base":
             cls = "sp"
-        sub = os.path.join(env["dir"], "conf-%s" % label)
+        # one directory and one file content per key-file path: a rewrite puts the identical text there
+        tag = os.path.basename(key_file).split(".")[0]
+        sub = os.path.join(env["dir"], "conf-%s" % tag)
         os.makedirs(sub, exist_ok=True)
-        fn = os.path.join(sub, ("sp_conf" if how == "file_alias" else "c20conf_%s" % label.replace("-", "_")) + ".py")
+        mod = "sp_conf" if how.endswith("_alias") else "c20conf_%s" % tag
+        fn = os.path.join(sub, mod + ".py")
         with open(fn, "w") as f:
-            f.write("CONFIG = %r\n" % (_minimal_dict(key_file, cert_file, label, cls),))
-        new = (Server if cls == "idp" else Saml2Client)(config_file=fn)
-        new._c20_cls = cls
+            f.write("CONFIG = %r\n" % (_minimal_dict(key_file, cert_file, tag, "sp"),))
+        if how.startswith("module"):
+            sys.path.insert(0, sub)  # the configuration is named by MODULE NAME, its directory being on sys.path
+            new = Saml2Client(config_file=mod)
+        else:
+            new = (Server if cls == "idp" else Saml2Client)(config_file=fn)
+        new._c20_cls = "sp" if how.startswith("module") else cls
     else:
         new = _entity_from(_minimal_dict(key_file, cert_file, label, cls), cls)
     new._c20_minimal = True
     return new
 
 
-def _do_op(op, ent, universe, env):
-    """-> (observable, entity the thread acts for afterwards)"""
+def _do_op(op, ent, universe, env, own=None):
+    """-> (observable, entity the thread acts for afterwards); own = key name of the entity the thread acts for"""
     import saml2.sigver as sv
     from saml2 import pack
 
     if op["op"] == "sign":
         n, alg = op["msg"], op["alg"]
-        typ = "SAMLResponse" if op.get("response") else "SAMLRequest"
+        recv = env.get("receiver") is not None
+        response = bool(op.get("response")) and not recv
+        typ = "SAMLResponse" if response else "SAMLRequest"
+        text = recv_msg_text(n, own, env["instant"]) if recv else msg_text(n)
+        dest = recv_destination(n) if recv else destination(n)
         try:  # only the real call is inside the try: pysaml2 refuses with a bare Exception
             if op.get("via") == "pack":
-                info = pack.http_redirect_message(msg_text(n), destination(n), relay_state(n), typ, sigalg=alg,
+                info = pack.http_redirect_message(text, dest, relay_state(n), typ, sigalg=alg,
                                                   sign=True, backend=ent.sec.sec_backend)
             else:
-                info = ent.apply_binding(S.BINDING_REDIRECT, msg_text(n), destination(n), relay_state=relay_state(n),
-                                         response=bool(op.get("response")), sign=True, sigalg=alg)
+                info = ent.apply_binding(S.BINDING_REDIRECT, text, dest, relay_state=relay_state(n),
+                                         response=response, sign=True, sigalg=alg)
         except Exception as e:
             if str(e).startswith(REFUSALS):
                 return {"r": "refused"}, ent
             return {"r": "crash", "exc": type(e).__name__}, ent
         url = dict(info["headers"])["Location"]
-        verifiers, intact = check_url(url, typ, n, alg, universe)
-        return {"r": "sig", "verifiers": verifiers, "intact": intact}, ent
+        verifiers, intact = check_url(url, typ, n, alg, universe, text, dest)
+        ev = {"r": "sig", "verifiers": verifiers, "intact": intact}
+        if recv:
+            ev["_url"] = url  # judged by the receiver after the scheduled run (the receiving path is not gated)
+        return ev, ent
     if op["op"] == "verify":
         saml_msg = fixture(op)
         cert = S.cert_b64(op["cert"]) if op.get("cert") else None
@@ -505,12 +591,15 @@ def _do_op(op, ent, universe, env):
 
 def _run_program(ctx, t, th, universe, events, env):
     ent = entity(th["key"])
+    own = th["key"]
     for i, op in enumerate(th["prog"]):
         ctx.n = 0
         if op["op"] == "setup" and ctx.sched is not None:
             ctx.n = 1
             ctx.sched.arrive(t, "P")  # set-up touches no gate: it is carried out in an idle slot of its own
-        ev, ent = _do_op(op, ent, universe, env)
+        ev, ent = _do_op(op, ent, universe, env, own)
+        if op["op"] == "setup" and ev.get("r") == "setup":
+            own = op["content"]
         if ctx.n == 0 and ctx.sched is not None:
             ctx.sched.arrive(t, "P")  # the operation ended without touching the signing state: one idle slot
         ev["t"] = t
@@ -597,11 +686,22 @@ def _prepare(case):
 
 
 def _run_case(case):
+    import sys
+
+    sys.dont_write_bytecode = True  # configuration modules are rewritten during a case: no stale .pyc
     env = {"dir": tempfile.mkdtemp(prefix="c20-keys-")}
     try:
-        if case.get("preempt") is not None:
-            return _run_preempt(case, env)
-        return _run_gated(case, env)
+        if case.get("published") is not None:
+            from saml2 import time_util
+
+            env["receiver"] = make_receiver(case["published"])
+            env["instant"] = time_util.instant()
+        out = _run_preempt(case, env) if case.get("preempt") is not None else _run_gated(case, env)
+        for ev in out["events"]:  # receiving path, after the run, in result order
+            url = ev.pop("_url", None)
+            if url is not None:
+                ev["accepted"] = receive(env["receiver"], url)
+        return out
     finally:
         shutil.rmtree(env["dir"], ignore_errors=True)
 
@@ -982,6 +1082,12 @@ def gen_cases(rng, tier):
     # ---- how the configuration object of an entity set up during the run comes about
     yield from provenance_cases(rng, g, tables, thorough)
 
+    # ---- configuration naming styles (by path / by module name) mixed in one process
+    yield from naming_cases(rng, g, tables, thorough)
+
+    # ---- the library's receiving path as the judge of the produced signatures
+    yield from receive_cases(rng, g, tables, thorough)
+
     # ---- verdict matrix of the library's verifier, other certificate kinds
     yield from matrix_cases(rng, g, tables, thorough)
 
@@ -1213,6 +1319,84 @@ def provenance_cases(rng, g, tables, thorough):
         yield from _with_schedules(base, _sample_schedules(rng, counts, 12 if thorough else 4))
 
 
+def naming_cases(rng, g, tables, thorough):
+    """configuration NAMING styles mixed in one process: by path (F) and by module name with sys.path set (M), the
+    same file first one way then the other, re-creation of an entity after another same-named file was loaded --
+    every ordered selection of 2 and 3 set-ups from {M at path 1, F at path 1, F at path 2, M with a unique name
+    at path 3}, a signature after each set-up; plus two-thread interleavings"""
+    import itertools
+
+    styles = {"M1": ("module_alias", 1), "F1": ("file_alias", 1), "F2": ("file_alias", 2), "U3": ("module", 3)}
+    seqs = [q for r in (2, 3) for q in itertools.product(sorted(styles), repeat=r)]
+    if not thorough:
+        seqs = [q for q in seqs if "M1" in q and ("F1" in q or "F2" in q)] + rng.sample(seqs, 8)
+    for q in seqs:
+        g.ctr = rng.randrange(0, 400) * 10
+        alg = rng.choice(GOOD_ALGS)
+        k0 = rng.choice(ACTORS)
+        contents = rng.sample([n for n in RSA_NAMES if n != k0], len(q))
+        prog = []
+        for st, c in zip(q, contents):
+            u = g.setup_op(styles[st][1], c)
+            u["how"], u["cls"] = styles[st][0], "sp"
+            prog += [u, g.sign(alg)]
+        yield {"threads": [{"key": k0, "prog": prog}], "extra_keys": [], "stream": "naming", "schedule": []}
+    for _ in range(8 if thorough else 3):
+        g.ctr = rng.randrange(0, 400) * 10
+        alg = rng.choice(GOOD_ALGS)
+        k0, k1 = g.keys(2, "distinct")
+        c = rng.sample([n for n in RSA_NAMES if n not in (k0, k1)], 4)
+        def mk(st, content):
+            u = g.setup_op(styles[st][1], content)
+            u["how"], u["cls"] = styles[st][0], "sp"
+            return u
+        first, second = rng.choice([("M1", "F2"), ("F2", "M1"), ("M1", "F1"), ("F1", "M1")])
+        base = {"threads": [{"key": k0, "prog": [mk(first, c[0]), g.sign(alg), mk(first, c[1]), g.sign(alg)]},
+                            {"key": k1, "prog": [mk(second, c[2]), g.sign(alg)]}],
+                "extra_keys": [], "stream": "naming"}
+        yield from _with_schedules(base, [[]])
+        yield from _with_schedules(base, _sample_schedules(rng, _counts(base, tables), 12 if thorough else 5))
+
+
+def receive_cases(rng, g, tables, thorough):
+    """VERIFY through the receiving path: a real Server whose metadata lists 0-3 signing certificates per issuer --
+    the caller's current one first / in the middle / last / absent, retired or foreign ones (RSA, EC, Ed25519)
+    around it -- judges every URL the threads produced (parse_authn_request for odd message numbers,
+    parse_logout_request for even ones); the spec demands accepted = [caller's certificate is published]"""
+    import itertools
+
+    patterns = []
+    for r in (0, 1, 2):
+        for perm in set(itertools.permutations(["K"] + ["R%d" % j for j in range(r)])):
+            patterns.append(list(perm))
+        patterns.append(["R%d" % j for j in range(r)])  # the signing key's certificate is not published
+    programs = [(["s", "s"], "distinct"), (["ss", "s"], "distinct"), (["us", "s"], "distinct"),
+                (["sus", "ss"], "pair"), (["s", "s", "s"], "distinct")]
+    if thorough:
+        programs += [(["ss", "us", "s"], "pair"), (["usus", "s"], "distinct"), (["ss", "ss"], "same")]
+    for shapes, key_mode in programs:
+        for pat in patterns:
+            base = g.case(shapes, key_mode, rng.choice(["same", "mixed"]))
+            owns = []
+            for th in base["threads"]:
+                owns.append(th["key"])
+                for op in th["prog"]:
+                    if op["op"] == "setup":
+                        owns.append(op["content"])
+                    if op["op"] == "sign":
+                        op["response"] = False
+            published = {}
+            for k in sorted(set(owns)):
+                retired = rng.sample([n for n in CERT_NAMES if n != k], 2)
+                published[k] = [k if x == "K" else retired[int(x[1:])] for x in pat]
+            base["published"] = published
+            base["extra_keys"] = list(OTHER_KIND_CERTS)
+            base["stream"] = "receive"
+            counts = _counts(base, tables)
+            yield from _with_schedules(base, [[]])
+            yield from _with_schedules(base, _sample_schedules(rng, counts, 6 if thorough else 2))
+
+
 def matrix_cases(rng, g, tables, thorough):
     """verdict matrix: genuine signature by X, certificate Y (RSA, EC P-256, Ed25519), verifier backend Z, for
     Z in {X's backend, Y's backend, a third entity's}: the spec demands verdict = [X = Y]"""
@@ -1271,7 +1455,7 @@ def finding_key(case, impl, lean):
     # configuration files with one base name in different directories: only cases that contain two or more such
     # set-ups and nothing else that could explain a wrong key (all set-ups of the case are of that kind)
     setups = [op for th in case["threads"] for op in th["prog"] if op["op"] == "setup"]
-    if len(setups) >= 2 and all(op.get("how") == "file_alias" for op in setups):
+    if len(setups) >= 2 and all(op.get("how") in ("file_alias", "module_alias") for op in setups):
         return "C20/config-file-basename-alias"
     return None
 
